@@ -76,9 +76,13 @@ func oracleInstants(c *Case) CaseResult {
 	grid := c.Window.Grid()
 	onGrid := map[int64]bool{}
 	anyErr := false
+	instPoints := 0
 	for _, t := range grid {
 		onGrid[t] = true
 		inst, _ := runQuery(eng, st, cfg, c.Query, Window{Start: t, End: t, Step: 0})
+		if inst.Kind != "error" {
+			instPoints += len(pointsAt(inst, t))
+		}
 		if inst.Kind == "error" {
 			anyErr = true
 			if rng.Kind != "error" {
@@ -100,8 +104,12 @@ func oracleInstants(c *Case) CaseResult {
 			return res
 		}
 	}
-	if rng.Kind == "error" && !anyErr {
-		res.Fail = "range query fails (" + rng.Err + ") but every instant query on its grid succeeds"
+	// The property relates points: a failing range query returns none, which
+	// agrees with instant queries that all succeed with empty results (the
+	// reference engine, too, checks topk's k at every step of a range query even
+	// when there is no series at all, but not in an instant query).
+	if rng.Kind == "error" && !anyErr && instPoints > 0 {
+		res.Fail = "range query fails (" + rng.Err + ") but every instant query on its grid succeeds, with samples"
 		res.Impl = trunc(rng.String(), 300)
 		res.Tags = selfTags(c)
 		return res
@@ -158,6 +166,12 @@ func selfTags(c *Case, results ...Canon) []string {
 	}
 	if unpinnedInStepInvariant(c) {
 		tags = append(tags, "unpinned-selector-in-step-invariant")
+	}
+	if len(results) == 2 && varianceConditioning(c, results[0], results[1]) {
+		tags = append(tags, "variance-conditioning")
+	}
+	if pinnedOutsideStepInvariant(c) {
+		tags = append(tags, "pinned-parameter-outside-step-invariant")
 	}
 	return tags
 }
